@@ -161,4 +161,152 @@ theorem getPlain_ok_iff (E : BlockFn) (hE : E.Len16) (key : Bytes) (scf : Scf) (
         simp at h
   · exact getPlain_secureWith E hE key scf d.seq c p d
 
+/-! ### success conditions and shape of the output -/
+
+theorem block0_ok (sb : Bytes) (c : Ctx) (q : Nat) (h1 : (c.atype ||| c.eff) < 256)
+    (h2 : (c.tpci ||| apciSecHigh) < 256) (hq : q < 256) :
+    block0 sb c q = .ok (sb ++ c.addr ++ [0, c.atype ||| c.eff, c.tpci ||| apciSecHigh, apciSecLow, 0, q]) := by
+  unfold block0 bytesOf
+  have h3 : apciSecLow < 256 := by decide
+  have : ([0, c.atype ||| c.eff, c.tpci ||| apciSecHigh, apciSecLow, 0, q].all (· < 256)) = true := by
+    simp only [List.all_cons, List.all_nil, Bool.and_true, Bool.and_eq_true, decide_eq_true_eq]
+    omega
+  rw [if_pos this]
+
+/-- Guards under which `init_from_plain_apdu` returns (no `ValueError`/`OverflowError`). -/
+structure SecureGuards (scf : Scf) (c : Ctx) (apdu : Bytes) : Prop where
+  hAlg : scf.algorithm = algAuth ∨ scf.algorithm = algEnc
+  hCtl : (c.atype ||| c.eff) < 256
+  hTpci : (c.tpci ||| apciSecHigh) < 256
+  hLen : apdu.length ≤ 255
+
+theorem secureWith_ok (E : BlockFn) (key : Bytes) (scf : Scf) (sb : Bytes) (c : Ctx) (apdu : Bytes)
+    (g : SecureGuards scf c apdu) : ∃ d, secureWith E key scf sb c apdu = .ok d := by
+  unfold secureWith
+  rcases g.hAlg with ha | ha
+  · rw [if_pos ha]
+    unfold secureAuth
+    rw [block0_ok sb c 0 g.hCtl g.hTpci (by omega)]
+    have : (scf.toKnx :: apdu).length < 65536 := by have := g.hLen; simp; omega
+    simp only [macCbc]
+    rw [if_pos this]
+    exact ⟨_, rfl⟩
+  · have hne : scf.algorithm ≠ algAuth := fun h' => algAuth_ne_algEnc (h' ▸ ha)
+    rw [if_neg hne, if_pos ha]
+    unfold secureEnc
+    rw [block0_ok sb c apdu.length g.hCtl g.hTpci (by have := g.hLen; omega)]
+    simp [macCbc]
+
+theorem macInput_ne_nil (b0 ad p : Bytes) : pad16 (macInput b0 ad p) ≠ [] := by
+  intro h0
+  obtain ⟨z, hz, _⟩ := pad16_prefix (macInput b0 ad p)
+  rw [h0] at hz
+  have := congrArg List.length hz
+  simp [macInput, Bytes.ofNatBE_length] at this
+  omega
+
+theorem macCbc_length (E : BlockFn) (hE : E.Len16) (key ad p b0 m : Bytes)
+    (h : macCbc E key ad p b0 = .ok m) : m.length = 16 := by
+  unfold macCbc at h
+  split at h
+  · simp only [Except.ok.injEq] at h
+    subst h
+    have hne := macInput_ne_nil b0 ad p
+    rw [cbcLast_eq_cbcMac E hE key _ hne]
+    have hb16 : blocks16 (pad16 (macInput b0 ad p)) ≠ [] := by
+      have : 0 < (pad16 (macInput b0 ad p)).length := List.length_pos_iff.mpr hne
+      simp [blocks16, nblocks]; omega
+    obtain ⟨x, xs, hx⟩ := List.exists_cons_of_ne_nil hb16
+    rw [hx]
+    exact cbcMac_length E hE key x xs
+  · simp at h
+
+theorem secureAuth_shape (E : BlockFn) (hE : E.Len16) (key : Bytes) (scf : Scf) (sb : Bytes) (c : Ctx)
+    (apdu : Bytes) (d : SecureData) (h : secureAuth E key scf sb c apdu = .ok d) :
+    d.seq = sb ∧ d.sapdu.length = apdu.length ∧ d.mac.length = 4 := by
+  unfold secureAuth at h
+  cases hb : block0 sb c 0 with
+  | error e => simp [hb] at h
+  | ok b0 =>
+    simp only [hb] at h
+    cases hm : macCbc E key (scf.toKnx :: apdu) [] b0 with
+    | error e => simp [hm] at h
+    | ok m =>
+      simp only [hm, Except.ok.injEq] at h
+      subst h
+      have := macCbc_length E hE key _ _ _ m hm
+      simp [this]
+
+theorem secureEnc_shape (E : BlockFn) (hE : E.Len16) (key : Bytes) (scf : Scf) (sb : Bytes) (c : Ctx)
+    (apdu : Bytes) (d : SecureData) (h : secureEnc E key scf sb c apdu = .ok d) :
+    d.seq = sb ∧ d.sapdu.length = apdu.length ∧ d.mac.length = 4 := by
+  unfold secureEnc at h
+  cases hb : block0 sb c apdu.length with
+  | error e => simp [hb] at h
+  | ok b0 =>
+    simp only [hb] at h
+    cases hm : macCbc E key [scf.toKnx] apdu b0 with
+    | error e => simp [hm] at h
+    | ok m =>
+      simp only [hm, Except.ok.injEq] at h
+      subst h
+      have hl := macCbc_length E hE key _ _ _ m hm
+      have ho := ctrXor_length E hE key (counter0 sb c.addr) (m.take 4 ++ apdu)
+      simp only [ctrXor2, List.length_drop, List.length_take, ho, List.length_append, hl]
+      refine ⟨trivial, ?_, ?_⟩ <;> omega
+
+/-- Shape of what `init_from_plain_apdu` returns: the given sequence-number octets,
+a secured APDU as long as the plain one, a four-octet MAC. -/
+theorem secureWith_shape (E : BlockFn) (hE : E.Len16) (key : Bytes) (scf : Scf) (sb : Bytes) (c : Ctx)
+    (apdu : Bytes) (d : SecureData) (h : secureWith E key scf sb c apdu = .ok d) :
+    d.seq = sb ∧ d.sapdu.length = apdu.length ∧ d.mac.length = 4 := by
+  unfold secureWith at h
+  split at h
+  · exact secureAuth_shape E hE key scf sb c apdu d h
+  · split at h
+    · exact secureEnc_shape E hE key scf sb c apdu d h
+    · simp at h
+
+/-! ### wire format -/
+
+/-- `SecureData.from_knx(d.to_knx()) == d` for a six-octet sequence number and four-octet MAC. -/
+theorem fromKnx_toKnx (d : SecureData) (h6 : d.seq.length = 6) (h4 : d.mac.length = 4) :
+    SecureData.fromKnx d.toKnx = d := by
+  cases d with
+  | mk seq sapdu mac =>
+    simp only at h6 h4
+    simp only [SecureData.fromKnx, SecureData.toKnx, List.length_append, h6, h4, SecureData.mk.injEq]
+    refine ⟨?_, ?_, ?_⟩
+    · rw [List.append_assoc, List.take_append_of_le_length (by omega)]
+      rw [← h6, List.take_length]
+    · have : 6 + sapdu.length + 4 - 4 = (seq ++ sapdu).length := by simp [h6]
+      rw [this, List.take_left' rfl, ← h6, List.drop_left' rfl]
+    · have : 6 + sapdu.length + 4 - 4 = (seq ++ sapdu).length := by simp [h6]
+      rw [this, List.drop_left' rfl]
+
+/-! ### the receive decision on a secured group frame -/
+
+/-- The abstract event of a secured frame to a keyed address. -/
+theorem evOf_secure (E : BlockFn) (ds : DS) (f : Frame) (innerOk : Bytes → Bool) (scf : Scf)
+    (d : SecureData) (key : Bytes) (hp : f.payload = .secure scf d) (hk : keyFor ds.keys f.dst = some key) :
+    evOf E ds f innerOk =
+      { secure := true, group := f.group, keyed := true, svcOk := scf.service = svcData,
+        toolSb := scf.systemBroadcast || scf.toolAccess, src := f.src, seq := Bytes.toNatBE d.seq,
+        verify := getPlain E key scf f.ctx d,
+        innerOk := innerOf innerOk (getPlain E key scf f.ctx d) } := by
+  simp [evOf, hp, hk]
+
+/-- Every test of `received_cemi` passed ⇒ the frame is delivered and the counter stored. -/
+theorem received_secure_deliver (E : BlockFn) (r : DS) (f : Frame) (innerOk : Bytes → Bool) (scf : Scf)
+    (d : SecureData) (key p : Bytes) (last : Nat)
+    (hp : f.payload = .secure scf d) (hg : f.group = true) (hk : keyFor r.keys f.dst = some key)
+    (hsvc : scf.service = svcData) (hsb : scf.systemBroadcast = false) (hta : scf.toolAccess = false)
+    (hl : r.senders.lookup f.src = some last) (hlt : last < Bytes.toNatBE d.seq)
+    (hv : getPlain E key scf f.ctx d = .ok p) (hin : innerOk p = true) :
+    received E r f innerOk = ({ r with senders := setVal r.senders f.src (Bytes.toNatBE d.seq) }, .deliver p) := by
+  unfold received
+  rw [evOf_secure E r f innerOk scf d key hp hk, hv]
+  have : decide (Bytes.toNatBE d.seq > last) = true := by simpa using hlt
+  simp [recvStep, hg, hsvc, hsb, hta, hl, this, hin, innerOf]
+
 end XknxVerif.DataSecure
